@@ -7,18 +7,17 @@ MODEL_MODULES = ["Base", "Index", "Containers"]
 HANDLERS = ["h_c19.ml"]
 CAP = 4
 CLAIM = dict(
-    text=("Kernel-checked for EVERY operation history (induction over the op list) on two live objects: utl::vector — its size is "
-          "the std::vector size, size <= buffer size, every cell written through the API (push_back / write / copy / assignment) "
-          "holds the std value, and where all visible cells are written the contents ARE the std contents; every access is inside "
-          "its block, no block is freed twice, the two objects own distinct blocks that are exactly the live ones, and after "
-          "destroying both every block allocated has been freed exactly once; self-assignment is the identity on object and heap; "
-          "operations on one object never touch the other. utl::static_vector<Cap> — the same refinement against a capacity-bounded "
-          "list for every history (a sized construction beyond the capacity is refused and leaves an empty object — repaired here), "
-          "size() <= capacity always, push_back / resize beyond the capacity leave the object unchanged. REFUTED "
-          "(known findings): cells exposed by a growing resize (and by utl::vector's sized constructor) are not value-initialised; "
-          "maybe / either of a non-trivial type assign into raw storage and never run the "
+    text=("Kernel-checked for EVERY operation history (induction over the op list) on two live objects: utl::vector — after any "
+          "history its visible contents ARE the std::vector contents, cell for cell (size included; size <= buffer size); every "
+          "access is inside its block, no block is freed twice, the two objects own distinct blocks that are exactly the live ones, "
+          "and after destroying both every block allocated has been freed exactly once; self-assignment is the identity on object "
+          "and heap; operations on one object never touch the other. utl::static_vector<Cap> — after any history its contents ARE "
+          "those of a capacity-bounded std::vector (a sized construction, push_back or resize beyond the capacity is refused and "
+          "leaves the object unchanged / empty), size() <= capacity always. (Three repairs found here are in the tree: vector "
+          "destructor, static_vector(n) capacity test, value-initialisation of the cells exposed by a growing resize / the sized "
+          "constructor.) REFUTED (known findings): maybe / either of a non-trivial type assign into raw storage and never run the "
           "destructor; small_vector over the utl types leaks and assigns into raw storage once it leaves its static arm. "
-          "Tied to the C++ by exhaustive histories over a 13-symbol alphabet plus seeded long histories, each also run on "
+          "Tied to the C++ by exhaustive histories over a 14-symbol alphabet plus seeded long histories, each also run on "
           "std::vector / std::optional / std::variant in the same process, with the library's malloc/free redirected to a counting "
           "allocator, in NDEBUG and ASan+UBSan builds."),
     ref="5.19", technique="Coq proof (state-machine refinement + heap invariant by induction over histories) + differential "
@@ -31,11 +30,11 @@ RULE = ("utl::vector<int>, utl::static_vector<int,4>, small_vector<int,4> (utl e
         "the same process; allocation/free counts balanced, no free of a non-live block. non-trivial = history with a copy or "
         "assignment and a later mutation; distinct = distinct lines")
 THEOREM_STATUS = {
-    "proved": ["C19_vector_refines_std_on_written_cells", "C19_vector_memory_and_allocation_balance",
+    "proved": ["C19_vector_refines_std", "C19_vector_memory_and_allocation_balance",
                "C19_static_vector_refines_bounded_std", "C19_static_vector_refuses_beyond_capacity",
                "C19_self_assignment_harmless", "C19_copies_independent"],
     "partial": [],
-    "refuted": ["C19_value_initialisation_refuted", "C19_nontrivial_maybe_refuted"]}
+    "refuted": ["C19_nontrivial_maybe_refuted"]}
 ASSUMPTIONS = ["malloc never fails (every constructor gets a block; malloc(0) is a block of length 0)",
                "the heap is abstract: block identity, length, alloc/free events; real out-of-bounds / lifetime errors are observed "
                "by ASan and the counting allocator on the explored histories, not proved absent (partial for real memory safety)",
@@ -176,17 +175,4 @@ def classify(line, impl, spec, model):
         return None
     if kind == "small" and enters_dynamic_arm(hist):
         return "small_vector-utl-dynamic-arm-leak-raw-assign"
-    if kind in ("vec", "svec", "small") and "|" in impl:
-        d = _parts(impl)
-        if d.get("std") != spec.strip() or not _heap_ok(d.get("heap")): return None
-        ic, sc, mc = _cells(d["contents"]), _cells(spec), _cells(_parts(model)["contents"])
-        if len(ic) != 2 or len(sc) != 2 or len(mc) != 2: return None
-        diff = False
-        for (ni, ci), (ns, cs), (nm, cm) in zip(ic, sc, mc):
-            if ni != ns or len(ci) != len(cs) or len(cm) != len(cs): return None
-            for x, y, z in zip(ci, cs, cm):
-                if x != y:
-                    if z != "~": return None      # a written cell differs: not this class
-                    diff = True
-        if diff: return "resize-grow-or-sized-ctor-not-value-initialised"
     return None
